@@ -59,7 +59,7 @@ pub fn canon_block(pa: &Prog, pb: &Prog, nv: usize, sa: &[usize], sb: &[usize], 
         }
     }
     v.push_str(&format!("Definition C_outs : list (nat * nat) := [{}].\n", pairs.join("; ")));
-    v.push_str(&CANON_BODY.replace("THEOREM", theorem));
+    v.push_str(&CANON_BODY.replace("THEOREMD", &theorem.replace("programs_agree", "derivatives_agree")).replace("THEOREM", theorem));
     (v, names)
 }
 
@@ -71,5 +71,15 @@ Definition pair_agree (k : nat) (Hk : (k < List.length C_outs)%nat) (H : nth k p
   THEOREM A_prog B_prog C_zs C_piA C_piB _ _ env
     (canon_eqbs_nth A_prog B_prog C_zs C_piA C_piB C_outs k Hk (eq_ind_r (fun l => nth k l false = true) H pair_canon_eq)).
 Check pair_agree.
+(* ... and of the derivatives theorem: entropy, pressure, chemical potentials (tan_outs of both members along any line) *)
+Lemma C_A_scoped : wscoped A_prog (List.length C_piA) = true.
+Proof. vm_compute. reflexivity. Qed.
+Lemma C_B_scoped : wscoped B_prog (List.length C_piB) = true.
+Proof. vm_compute. reflexivity. Qed.
+Definition pair_derivatives_agree (k : nat) (Hk : (k < List.length C_outs)%nat) (H : nth k pair_canon false = true) (a e : list R) Hla Hle Hza Hze :=
+  THEOREMD A_prog B_prog C_zs C_piA C_piB _ _
+    (canon_eqbs_nth A_prog B_prog C_zs C_piA C_piB C_outs k Hk (eq_ind_r (fun l => nth k l false = true) H pair_canon_eq))
+    a e Hla Hle Hza Hze C_A_scoped C_B_scoped.
+Check pair_derivatives_agree.
 Eval vm_compute in ("CANON", "P", pair_canon).
 "#;
